@@ -61,6 +61,7 @@ def run(ctx):
     with repo.Scratch("verif-c07-") as tmp:
         programs(ctx, built, tmp)
         cache_programs(ctx, built, tmp)
+        special_blocks(ctx, tmp)
         faults(ctx, tmp)
 
 
@@ -490,6 +491,87 @@ def cache_programs(ctx, model_ok, tmp):
         ctx.extra["cache_correspondence_disagreements"] = nd
 
 
+# ------------------------------------------------------------------ particular blocks and calls
+def special_blocks(ctx, tmp):
+    """(1) A failing block that removes, with pruneDatasets, a dataset it has itself ingested: the undo of that ingest finds its
+    file gone already — the undo of the *earlier* put must still happen.  (2) One associate() over refs of two dataset types of
+    which the later one conflicts: refused, and nothing of it stays — at top level, and caught inside a block that commits."""
+    from lsst.daf.butler import Butler, CollectionType, DatasetRef, DatasetType, FileDataset
+    from lsst.daf.butler.registry import ConflictingDefinitionError
+
+    def viol(what, key, replay):
+        ctx.violations.append(core.Violation(what=what, key=key, replay=replay))
+
+    root = os.path.join(tmp, "special")
+    b = repo.make_butler(root, run="r1")
+    repo.basic_dimensions(b, detectors=(1, 2, 3, 4))
+    dta = DatasetType("sa", {"instrument", "detector"}, "StructuredDataDict", universe=b.dimensions)
+    dtb = DatasetType("sb", {"instrument", "detector"}, "StructuredDataDict", universe=b.dimensions)
+    b.registry.registerDatasetType(dta), b.registry.registerDatasetType(dtb)
+    b.registry.registerCollection("stag", CollectionType.TAGGED)
+    keep = b.put({"keep": 1}, dta, instrument="I", detector=4)
+    # ---- (1)
+    src = os.path.join(tmp, "special_in.yaml")
+    with open(src, "w") as fh:
+        fh.write("v: 2\n")
+    before = snapshot(b, root, [dta, dtb])
+    try:
+        with b.transaction():
+            b.put({"v": 1}, dta, instrument="I", detector=1)
+            rb = DatasetRef(dta, {"instrument": "I", "detector": 2}, run="r1")
+            b.ingest(FileDataset(path=src, refs=[rb]), transfer="copy")
+            b.pruneDatasets([rb], purge=True, unstore=True, disassociate=True)
+            raise Boom()
+    except Boom:
+        pass
+    ctx.evaluations += 1
+    ctx.count("special:block-prunes-its-own-ingest")
+    d = diff(before, snapshot(b, root, [dta, dtb]))
+    if d:
+        viol("failed block `put A; ingest(copy) B; pruneDatasets([B], purge, unstore); raise`: " + "; ".join(d), "block-prunes-own-ingest",
+             {"kind": "special", "scenario": "block-prunes-its-own-ingest", "diff": d})
+        b._datastore._transaction = None
+    # ---- (2)
+    a1 = b.put({"a": 1}, dta, instrument="I", detector=1)
+    b.registry.registerRun("r2")
+    b1 = b.put({"b": 1}, dtb, instrument="I", detector=1)
+    b1_twin = b.put({"b": 2}, dtb, instrument="I", detector=1, run="r2")
+    b.registry.associate("stag", [b1_twin])  # the slot (sb, detector 1) of the tag is taken
+    for how in ("top-level", "caught-inside-a-committing-block"):
+        before = snapshot(b, root, [dta, dtb])
+        refused = False
+        try:
+            if how == "top-level":
+                b.registry.associate("stag", [a1, b1])
+            else:
+                with b.transaction():
+                    b.put({"v": 3}, dta, instrument="I", detector=3)
+                    try:
+                        with b.transaction():
+                            b.registry.associate("stag", [a1, b1])
+                    except ConflictingDefinitionError:
+                        refused = True
+        except ConflictingDefinitionError:
+            refused = True
+        ctx.evaluations += 1
+        ctx.count(f"special:associate-two-types:{how}")
+        after = snapshot(b, root, [dta, dtb])
+        tag_before = {k_: v_ for k_, v_ in before["registry"].items() if k_[0] == "stag"}
+        tag_after = {k_: v_ for k_, v_ in after["registry"].items() if k_[0] == "stag"}
+        if not refused:
+            viol(f"associate of refs of two dataset types, the later one conflicting ({how}): accepted", f"associate-two-types-accepted:{how}",
+                 {"kind": "special", "scenario": "associate-two-types", "how": how})
+        elif tag_after != tag_before:
+            viol(f"associate of refs of two dataset types, the later one conflicting ({how}): refused, but the TAGGED collection changed: "
+                 f"{ {k_[1]: len(v_) for k_, v_ in tag_before.items()} } -> { {k_[1]: len(v_) for k_, v_ in tag_after.items()} } datasets per type",
+                 f"associate-two-types:{how}", {"kind": "special", "scenario": "associate-two-types", "how": how})
+    try:
+        if b.get(keep) != {"keep": 1}:
+            viol("special blocks: an unrelated dataset changed", "special-other", {"kind": "special"})
+    except Exception as e:
+        viol(f"special blocks: an unrelated dataset is unreadable ({type(e).__name__})", "special-other", {"kind": "special"})
+
+
 # ------------------------------------------------------------------ fault enumeration
 class Injector:
     """Raises at the k-th call of any wrapped boundary method."""
@@ -499,6 +581,7 @@ class Injector:
         self.count = 0
         self.log = []
         self.patched = []
+        self.exc_override = None  # e.g. KeyboardInterrupt: a failure that `except Exception` does not swallow
 
     def wrap(self, cls, name, exc):
         orig = getattr(cls, name, None)
@@ -511,7 +594,7 @@ class Injector:
                 inj.count += 1
                 inj.log.append(f"{cls.__name__}.{name}")
                 if inj.count == inj.k:
-                    raise exc(f"injected fault at boundary {inj.k}: {cls.__name__}.{name}")
+                    raise (inj.exc_override or exc)(f"injected fault at boundary {inj.k}: {cls.__name__}.{name}")
             return orig(*a, **kw)
 
         setattr(cls, name, wrapper)
@@ -726,7 +809,9 @@ def faults(ctx, tmp):
             del b, fresh_b
             shutil.rmtree(root, ignore_errors=True)
 
-        for name in ("prune-purge", "removeRuns"):
+        for name in ("prune-purge", "removeRuns", "prune-purge-interrupted"):
+            # (the third round: the same removal hit by a KeyboardInterrupt, which no `except Exception` along the way swallows)
+            inj.exc_override = KeyboardInterrupt if name.endswith("interrupted") else None
             k = 1
             while True:
                 tag = f"r_{name}_{k}"
@@ -739,11 +824,11 @@ def faults(ctx, tmp):
                 inj.k, inj.count, inj.log = k, 0, []
                 failed = None
                 try:
-                    if name == "prune-purge":
+                    if name.startswith("prune-purge"):
                         b.pruneDatasets([t1, t2], purge=True, unstore=True, disassociate=True)
                     else:
                         b.removeRuns(["r2"], unstore=True)
-                except Exception as e:
+                except BaseException as e:  # noqa: BLE001
                     failed = type(e).__name__
                 finally:
                     inj.k = None
@@ -802,6 +887,7 @@ def faults(ctx, tmp):
                 if k > 60:
                     break
             ctx.extra.setdefault("fault_boundaries", {})[name] = k - 1
+        inj.exc_override = None
     finally:
         inj.restore()
 
